@@ -13,11 +13,11 @@ Require Import Pk.RegexProg Pk.RegexProgProofs Pk.Regex Pk.RegexProofs Pk.DataFi
 (* ---- A. the shortcuts of progressVariant.find do not change the scan.
    facts_sound r: every accepted word starts with the prefix, ends with the suffix and has a length within [min,max].
    find_agrees: the offset only moves forward inside the data; a reported match is the match the plain scan finds from the
-   old offset (same captures, indices shifted by the move of the offset); no match reported = the plain scan finds none
+   old offset (same captures, indices shifted by the move of the offset; an empty match at the offset leaves the offset); no match reported = the plain scan finds none
    from the old offset and none from the new one.
    Not covered (hence _partial): the fixed-length window loop (min = max, no prefix, non-empty suffix). *)
 Theorem c04_find_shortcut_plain_partial : forall F guard r data off res off',
-  assertion_free (r_prog r) = true -> facts_sound r -> off <= length data ->
+  assertion_free (r_prog r) = true -> facts_sound r -> 2 <= r_ncap r -> off <= length data ->
   (N.eqb (f_min (r_facts r)) (f_max (r_facts r)) && match f_prefix (r_facts r) with [] => true | _ => false end
      && match f_suffix (r_facts r) with [] => false | _ => true end = false) ->
   find F guard r data off = (res, off') -> find_agrees F r data off res off'.
